@@ -39,6 +39,10 @@ func c10Fix() *Fix {
 	d4.MediaType = types.MediaTypeDocker2Manifest
 	xd := f.Raw("Xd", f.Items["X3"], h.Index(mtIdx, []h.Desc{d4}, nil, "", nil))
 	xd.Children = []string{"I4nomt"}
+	// a docker manifest list over an untagged docker image
+	f.Blob("dc", types.MediaTypeDocker2ImageConfig, []byte(`{"docker":true}`))
+	f.Image("D1", types.MediaTypeDocker2Manifest, "dc", []string{"l1"}, "", "", nil)
+	f.Index("DL", types.MediaTypeDocker2ManifestList, []string{"D1"}, "", "", nil)
 	return f
 }
 
@@ -168,7 +172,7 @@ func c10ValidateLayout(w *h.World, f *Fix, repo string, items, tags []string) []
 
 func c10Specs(tier string) []*h.SeqSpec {
 	f := c10Fix()
-	items := []string{"c", "l1", "l2", "e", "l3s384", "I1", "I1s512", "I2", "X2", "I3", "X3", "Y3", "I4nomt", "Xd", "A1"}
+	items := []string{"c", "l1", "l2", "e", "l3s384", "I1", "I1s512", "I2", "X2", "I3", "X3", "Y3", "I4nomt", "Xd", "D1", "DL", "A1"}
 	tags := []string{"t", "u"}
 	subjects := []string{f.Items["I1"].Dig}
 	type cfg struct {
@@ -242,6 +246,14 @@ func c10Specs(tier string) []*h.SeqSpec {
 			w.PutManifest("r", "u", mtIdx, f.Items["Xd"].Data)
 			return nil
 		}})
+		ops = append(ops, h.Op{Name: "push docker image D1 by digest and the docker list DL over it by digest", Do: func(w *h.World) []h.Violation {
+			for _, b := range []string{"dc", "l1"} {
+				w.PushBlob("r", f.Items[b].Data, f.Items[b].Dig)
+			}
+			w.PutManifest("r", f.Items["D1"].Dig, f.Items["D1"].MT, f.Items["D1"].Data)
+			w.PutManifest("r", f.Items["DL"].Dig, f.Items["DL"].MT, f.Items["DL"].Data)
+			return nil
+		}})
 		blob("r/n", "c")
 		blob("r/n", "l1")
 		man("r/n", "I1", "t")
@@ -249,7 +261,7 @@ func c10Specs(tier string) []*h.SeqSpec {
 		// a legal nested name whose directory is where r keeps the blob l2; the directory store has to refuse it (a name
 		// the stores do not both accept: its own content is not compared, that of r is)
 		blob("r/blobs/sha256/"+strings.TrimPrefix(f.Items["l2"].Dig, "sha256:"), "c")
-		for _, p := range []string{"/v2/r/manifests/t", "/v2/r/manifests/" + f.Items["I1"].Dig, "/v2/r/manifests/" + f.Items["X2"].Dig, "/v2/r/blobs/" + f.Items["l2"].Dig, "/v2/r/n/manifests/t", "/v2/r/manifests/" + f.Items["A1"].Dig} {
+		for _, p := range []string{"/v2/r/manifests/t", "/v2/r/manifests/" + f.Items["I1"].Dig, "/v2/r/manifests/" + f.Items["X2"].Dig, "/v2/r/blobs/" + f.Items["l2"].Dig, "/v2/r/n/manifests/t", "/v2/r/manifests/" + f.Items["A1"].Dig, "/v2/r/manifests/" + f.Items["DL"].Dig} {
 			p := p
 			ops = append(ops, h.Op{Name: "DELETE " + strings.Replace(p, "sha256:", "", 1)[:minInt(len(p), 40)], Do: func(w *h.World) []h.Violation { w.Delete(p); return nil }})
 		}
